@@ -162,6 +162,11 @@ def generate(ctx):
                     pairs.append((('d', f), ('i', z)))
         for z in (gen.U64_MAX, gen.I64_MAX, gen.I64_MIN, 1 << 63):
             pairs.append((('d', f), ('u', z) if z >= 0 else ('i', z)))
+    # deterministic: signed zeros in every representation and the special floats against each other, in all three shapes
+    # (a seeded change ordered Float64(-0.0) below Float64(0.0); the random pairs reach that pair only by luck)
+    zeros = [('d', gen.float_to_bits(0.0)), ('d', gen.float_to_bits(-0.0)), ('i', 0), ('u', 0)]
+    specials = zeros + [('d', x) for x in gen.SPECIAL_FLOATS if ('d', x) not in zeros]
+    pairs = [pq for x in specials for y in specials for pq in ((x, y),) * 3] + pairs
     for _ in range(ctx.scale(1500, 40000)):
         pairs.append((r.choice(nums), r.choice(nums)))
     for j, (x, y) in enumerate(pairs):
